@@ -97,7 +97,36 @@ pub struct Batch {
 }
 
 /// Runs indices [0, n) of `prop` on `workers` processes of binary `exe`.
+pub const CORPUS_BASE: u64 = 1 << 40;
+
+pub fn corpus_files(prop: &str) -> Vec<String> {
+    let mut v = Vec::new();
+    for dir in ["corpus", "findings"] {
+        if let Ok(rd) = std::fs::read_dir(format!("{}/{}", ROOT, dir)) {
+            for e in rd.flatten() {
+                let p = e.path().to_string_lossy().to_string();
+                if !p.ends_with(".json") {
+                    continue;
+                }
+                // a trace is judged by the property it was recorded for
+                if let Ok(t) = std::fs::read_to_string(&p) {
+                    if t.contains(&format!("\"property\": \"{}\"", prop)) || t.contains(&format!("\"property\":\"{}\"", prop)) {
+                        v.push(p);
+                    }
+                }
+            }
+        }
+    }
+    v.sort();
+    v
+}
+
 pub fn run_batch(exe: &std::path::Path, prop: &str, seed: u64, n: u64, workers: usize, watchdog: Duration, deadline: Option<Instant>) -> Batch {
+    run_batch_with(exe, prop, seed, n, workers, watchdog, deadline, &[])
+}
+
+#[allow(clippy::too_many_arguments)]
+pub fn run_batch_with(exe: &std::path::Path, prop: &str, seed: u64, n: u64, workers: usize, watchdog: Duration, deadline: Option<Instant>, files: &[String]) -> Batch {
     let start = Instant::now();
     let (tx, rx) = mpsc::channel::<(usize, String)>();
     let chunk = ((n / (workers as u64 * 8)).max(1)).min(50);
@@ -108,6 +137,10 @@ pub fn run_batch(exe: &std::path::Path, prop: &str, seed: u64, n: u64, workers: 
         queue.push_back((a, b));
         a = b;
     }
+    for (k, _) in files.iter().enumerate().rev() {
+        queue.push_front((CORPUS_BASE + k as u64, CORPUS_BASE + k as u64 + 1));
+    }
+    let files: Vec<String> = files.to_vec();
     let mut ws: Vec<Worker> = Vec::new();
     let mut reports: Vec<RunReport> = Vec::new();
     let mut crashes: Vec<(u64, &'static str)> = Vec::new();
@@ -116,7 +149,11 @@ pub fn run_batch(exe: &std::path::Path, prop: &str, seed: u64, n: u64, workers: 
             w.chunk = Some((a, b));
             w.last_activity = Instant::now();
             if let Some(si) = w.child.stdin.as_mut() {
-                let _ = writeln!(si, "RUN {} {}", a, b);
+                if a >= CORPUS_BASE {
+                    let _ = writeln!(si, "FILE {} {}", a, files[(a - CORPUS_BASE) as usize]);
+                } else {
+                    let _ = writeln!(si, "RUN {} {}", a, b);
+                }
                 let _ = si.flush();
             }
         } else {
@@ -157,7 +194,19 @@ pub fn run_batch(exe: &std::path::Path, prop: &str, seed: u64, n: u64, workers: 
                     let crashed = w.inflight.take();
                     let chunk = w.chunk.take();
                     w.alive = false;
-                    if let Some(i) = crashed {
+                    if let Some(i) = crashed.filter(|i| *i >= CORPUS_BASE) {
+                        let path = files[(i - CORPUS_BASE) as usize].clone();
+                        let code = if prop == "C01" { "C01-abort" } else { "ABANDON-abort" };
+                        reports.push(RunReport {
+                            index: i,
+                            run_seed: 0,
+                            findings: vec![Finding { code: code.into(), event: 0, message: format!("worker process died while replaying committed trace {}", path) }],
+                            stats: RunStats::default(),
+                            fired: Default::default(),
+                            events: 0,
+                            raw: Some(path),
+                        });
+                    } else if let Some(i) = crashed {
                         crashes.push((i, "abort"));
                         if let Some((_, b)) = chunk {
                             if i + 1 < b {
@@ -403,8 +452,10 @@ pub fn check(args: &[String]) -> i32 {
     }
 
     let deadline = if tier == "quick" { Some(Instant::now() + Duration::from_secs(240)) } else { Some(Instant::now() + Duration::from_secs(3300)) };
-    let batch = run_batch(&exe, &prop, seed, runs, workers, Duration::from_secs(120), deadline);
+    let corpus = corpus_files(&prop);
+    let batch = run_batch_with(&exe, &prop, seed, runs, workers, Duration::from_secs(120), deadline, &corpus);
     let agg = aggregate(&batch.reports);
+    verdict.notes.push(format!("{} committed corpus / finding traces replayed under this property's oracles before the random search", corpus.len()));
 
     // C17: the same seeds through the binary built without the feature
     let mut c17_extra = serde_json::json!(null);
@@ -612,7 +663,7 @@ fn classify(
         }
     }
     // crashed / hung runs: pin the event with a trace-mode run, then build the raw file here
-    for (idx, kind) in crashes.iter().take(4) {
+    for (idx, kind) in crashes.iter().filter(|c| c.0 < CORPUS_BASE).take(4) {
         let code = if prop == "C01" { format!("C01-{}", kind) } else { format!("ABANDON-{}", kind) };
         let run_seed = crate::rng::derive_seed(seed, crate::prop_tag(prop), *idx);
         let (t, _) = crate::profiles::gen_trace(prop, run_seed);
@@ -654,7 +705,7 @@ fn classify(
             }
             // a predicted-defective form that is not (or no longer) listed is a violation
         }
-        if shown >= 4 {
+        if shown >= 12 {
             verdict.notes.push(format!("further finding code {} ({} runs) not minimised", code, count));
             continue;
         }
